@@ -670,12 +670,12 @@ int main(int argc, char** argv) {
     boundary<real_t>(top);
     boundary<cmplx_t>(top);
     // arbitrary pairs on short horizons: small lengths densely, the whole 2..64 range
-    arbitrary_pairs<real_t>(top, a.thorough ? 1500 : 240, 8, a.thorough ? 6 : 3);
-    arbitrary_pairs<cmplx_t>(top, a.thorough ? 1500 : 240, 8, a.thorough ? 6 : 3);
-    arbitrary_pairs<real_t>(top, a.thorough ? 900 : 150, 64, a.thorough ? 12 : 6);
-    arbitrary_pairs<cmplx_t>(top, a.thorough ? 900 : 150, 64, a.thorough ? 12 : 6);
+    arbitrary_pairs<real_t>(top, a.thorough ? 6000 : 240, 8, a.thorough ? 15 : 3);
+    arbitrary_pairs<cmplx_t>(top, a.thorough ? 6000 : 240, 8, a.thorough ? 15 : 3);
+    arbitrary_pairs<real_t>(top, a.thorough ? 3600 : 150, 64, a.thorough ? 30 : 6);
+    arbitrary_pairs<cmplx_t>(top, a.thorough ? 3600 : 150, 64, a.thorough ? 30 : 6);
     // real RLS against the batch normal equations
-    for (int i = 0; i < (a.thorough ? 1200 : 200); ++i) rls_wls_case(top, i % 3 == 0 ? 64 : 12, false);
+    for (int i = 0; i < (a.thorough ? 5000 : 200); ++i) rls_wls_case(top, i % 3 == 0 ? 64 : 12, false);
     // convergence
     convergence<real_t>(top, a.thorough);
     convergence<cmplx_t>(top, a.thorough);
